@@ -363,6 +363,77 @@ theorem joinDash_splitDash (s : List Char) : joinDash (splitDash s) = s := by
         simp only
         rw [joinDash_cons_cons, ih]
 
+/-- a name without `-` is its own single part -/
+theorem splitDash_of_not_conjunct (s : List Char) (h : isConjunct s = false) : splitDash s = [s] := by
+  induction s with
+  | nil => rfl
+  | cons c cs ih =>
+    have hmem : ¬ '-' ∈ c :: cs := by
+      intro hm
+      have : isConjunct (c :: cs) = true := by
+        unfold isConjunct; exact List.contains_iff_mem.2 hm
+      rw [h] at this; cases this
+    have hc : c ≠ '-' := fun e => hmem (by rw [e]; exact List.mem_cons_self)
+    have hcs : isConjunct cs = false := by
+      cases hx : isConjunct cs with
+      | false => rfl
+      | true =>
+        exfalso
+        unfold isConjunct at hx
+        exact hmem (List.mem_cons_of_mem _ (List.contains_iff_mem.1 hx))
+    unfold splitDash
+    simp only [hc, if_false, ih hcs]
+
+/-- `str::split('-')` yields one part more than there are dashes -/
+theorem length_splitDash (s : List Char) : (splitDash s).length = s.count '-' + 1 := by
+  induction s with
+  | nil => rfl
+  | cons c cs ih =>
+    unfold splitDash
+    by_cases hc : c = '-'
+    · simp only [hc, if_true, List.length_cons, ih, List.count_cons_self]
+    · simp only [hc, if_false]
+      have hne : (c == '-') = false := by simpa using hc
+      cases hs : splitDash cs with
+      | nil => exact absurd hs (splitDash_ne_nil cs)
+      | cons q ps =>
+        rw [hs] at ih
+        simp only [List.length_cons] at ih ⊢
+        rw [List.count_cons, hne]
+        simpa using ih
+
+/-- a conjunct name (it contains `-`) has at least two parts: there is no one-part conjunct -/
+theorem two_le_length_splitDash (s : List Char) (h : isConjunct s = true) : 2 ≤ (splitDash s).length := by
+  rw [length_splitDash]
+  have : 0 < s.count '-' := List.count_pos_iff.2 (List.contains_iff_mem.1 h)
+  omega
+
+/-- no part contains a dash -/
+theorem not_dash_mem_splitDash (s p : List Char) (hp : p ∈ splitDash s) : ¬ '-' ∈ p := by
+  induction s generalizing p with
+  | nil =>
+    simp only [splitDash, List.mem_singleton] at hp
+    subst hp; simp
+  | cons c cs ih =>
+    unfold splitDash at hp
+    by_cases hc : c = '-'
+    · simp only [hc, if_true, List.mem_cons] at hp
+      rcases hp with rfl | hp
+      · simp
+      · exact ih p hp
+    · simp only [hc, if_false] at hp
+      cases hs : splitDash cs with
+      | nil => exact absurd hs (splitDash_ne_nil cs)
+      | cons q ps =>
+        rw [hs] at hp ih
+        simp only [List.mem_cons] at hp
+        rcases hp with rfl | hp
+        · intro hm
+          rcases List.mem_cons.1 hm with e | hm
+          · exact hc e.symm
+          · exact ih q List.mem_cons_self hm
+        · exact ih p (List.mem_cons_of_mem _ hp)
+
 theorem mem_lookup_conj_fold (k : Name) (parts : List Name) (g : Defs) (m : List (Name × List (List Name))) :
     parts ∈ lookup k (g.foldl conjStep m) ↔
       parts ∈ lookup k m ∨ ∃ d ∈ g, isConjunct d.name = true ∧ splitDash d.name = k :: parts := by
